@@ -40,7 +40,7 @@ theorem check_flag_is_config (I : ObjIface σ) (cfg : Config) (ops : List Op)
     (fun s op s' r evs hinv _ h => by
       have := step_all I (fun f => f.check = cfg.expCheck) s s' op r evs
         (fun p now ans id _ _ => by rw [hinv.1]; rfl)
-        (fun p now ans _ f hf => by rw [(push_fields I f p now ans).2.2.1]; exact hf)
+        (fun p now ans _ _ _ _ f hf => by rw [(push_fields I f p now ans).2.2.1]; exact hf)
         (fun f f' hf hu => by rw [(updateExpired_fields hu).2.2.1]; exact hf)
         h hinv.2
       exact ⟨by rw [this.2]; exact hinv.1, this.1⟩)
@@ -93,7 +93,7 @@ theorem check_disabled_ignores (I : ObjIface σ) (cfg : Config) (hc : cfg.expChe
     (fun s op s' r evs hinv _ h => by
       have := step_all I (fun f => f.check = false ∧ f.st ≠ .expired) s s' op r evs
         (fun p now ans id _ _ => by rw [hinv.1, hc]; simp [FdtRecv.new])
-        (fun p now ans _ f hf => by
+        (fun p now ans _ _ _ _ f hf => by
           have := push_fields I f p now ans
           exact ⟨by rw [this.2.2.1]; exact hf.1, this.2.2.2.2 hf.2⟩)
         (fun f f' hf hu => by
@@ -129,7 +129,7 @@ theorem no_sct_uses_own_clock (I : ObjIface σ) (cfg : Config) (ops : List Op)
     (fun s op s' r evs hinv hG h => by
       exact (step_all I (fun f => f.offset = none) s s' op r evs
         (fun p now ans id _ _ => by simp [FdtRecv.new])
-        (fun p now ans hop f hf => by
+        (fun p now ans hop _ _ _ f hf => by
           rw [(push_fields I f p now ans).1, hG p now ans hop]
           simpa [FdtRecv.observeSct] using hf)
         (fun f f' hf hu => by rw [(updateExpired_fields hu).2.2.2.2.1]; exact hf)
